@@ -77,10 +77,64 @@ def do_load(job):
     return res
 
 
+def _write_sources(root, files, mtime):
+    """(re)create the schema source under root: {relative path: text}; files not listed are removed;
+    mtime (epoch seconds or None = now) is applied to every file and directory of the source"""
+    import shutil
+
+    src = os.path.join(root, "schema_src")
+    if os.path.isdir(src):
+        shutil.rmtree(src)
+    os.makedirs(src)
+    for rel, text in files.items():
+        path = os.path.join(src, rel)
+        os.makedirs(os.path.dirname(path), exist_ok=True)
+        with open(path, "w", encoding="utf-8") as fh:
+            fh.write(text)
+    if mtime is not None:
+        for d, _ds, fs in os.walk(src, topdown=False):
+            for f in fs:
+                os.utime(os.path.join(d, f), (mtime, mtime))
+            os.utime(d, (mtime, mtime))
+
+
+def _read(path):
+    try:
+        with open(path, encoding="utf-8") as fh:
+            return fh.read()
+    except FileNotFoundError:
+        return None
+
+
+def do_history(job):
+    """a sequence of graphql_schema() runs in ONE project directory; every step is also generated in a fresh
+    directory from the same inputs"""
+    out = []
+    prev = None
+    for k, st in enumerate(job["steps"]):
+        rec = {}
+        # a step that does not change the schema leaves its files alone (they stay older than the target)
+        if not (st["files"] == prev and st["mtime"] is None):
+            _write_sources(job["dir"], st["files"], st["mtime"])
+        prev = st["files"]
+        rec["run"] = do_gen({"dir": job["dir"], "config": st["config"]})
+        target = st["config"]["tool"]["ariadne-codegen"]["target_file_path"]
+        rec["text"] = _read(os.path.join(job["dir"], target))
+        rec["others"] = {t: _read(os.path.join(job["dir"], t)) is not None for t in job["targets"]}
+        fresh = os.path.join(job["dir"], f"fresh{k}")
+        os.makedirs(os.path.join(fresh, os.path.dirname(target)) if os.path.dirname(target) else fresh)
+        _write_sources(fresh, st["files"], None)
+        rec["fresh_run"] = do_gen({"dir": fresh, "config": st["config"]})
+        rec["fresh_text"] = _read(os.path.join(fresh, target))
+        out.append(rec)
+    os.chdir("/")
+    return out
+
+
 def main():
     mode = sys.argv[1]
     jobs = json.load(sys.stdin)
-    fn = {"gen": do_gen, "load": do_load}[mode]
+    fn = {"gen": do_gen, "load": do_load, "history": do_history}[mode]
     out = []
     real_stdout = sys.stdout
     for j in jobs:
